@@ -100,6 +100,11 @@ def choose_tolerancing(case, o):
             vs["sampler"] = {"kind": "uniform", "a": nom - d, "b": nom + d, "seed": rnd.randrange(1, 10 ** 6)}
         if case.get("unseeded") and vs["sampler"]["kind"] in ("normal", "uniform"):
             vs["sampler"]["seed"] = None
+    # 0 is a seed like any other: in one case out of five every seeded sampler uses it
+    if not case.get("unseeded") and rnd.random() < 0.2:
+        for vs in chosen:
+            if vs["sampler"]["kind"] in ("normal", "uniform"):
+                vs["sampler"]["seed"] = 0
     case["perts"] = chosen
     if analysis == "mc":
         case["iters"] = case.get("iters") or rnd.choice([2, 3, 4, 5])
